@@ -43,10 +43,10 @@ func c13HTLCState() (*vEnv, keeper.Keeper, sdk.Context, []c13Slot, int64) {
 	e.bank.modules[types.ModuleName] = []string{authtypes.Minter, authtypes.Burner}
 	deputy, user, other := vAddr(5), vAddr(1), vAddr(2)
 	k := keeper.NewKeeper(e.cdc, e.key, e.acc, e.bank, vAddr(9).String())
-	zero, one, w := big.NewInt(0), big.NewInt(1), verifPow2(64)
+	zero, one, w := big.NewInt(0), big.NewInt(1), verifAmt(64)
 	timeLimited := verifBool("timeLimited")
 	asset := types.AssetParam{Denom: hDenom,
-		SupplyLimit: types.SupplyLimit{Limit: verifIntIn("limit", zero, verifPow2(70)), TimeLimited: timeLimited, TimePeriod: time.Hour, TimeBasedLimit: verifIntIn("timeLimit", zero, w)},
+		SupplyLimit: types.SupplyLimit{Limit: verifIntIn("limit", zero, verifAmt(70)), TimeLimited: timeLimited, TimePeriod: time.Hour, TimeBasedLimit: verifIntIn("timeLimit", zero, w)},
 		// the asset may have been paused by a parameter change after the contracts were created
 		Active: verifBool("active"), DeputyAddress: deputy.String(), FixedFee: sdkmath.NewInt(1), MinSwapAmount: sdkmath.NewInt(1), MaxSwapAmount: sdkmath.NewInt(1000000),
 		MinBlockLock: types.MinTimeLock, MaxBlockLock: types.MaxTimeLock}
@@ -72,6 +72,9 @@ func c13HTLCState() (*vEnv, keeper.Keeper, sdk.Context, []c13Slot, int64) {
 	slots := []slot{mk("1", 0xff, uint64(h))}
 	if verifChoice("two", 2) == 1 {
 		slots = append(slots, mk("2", 0x00, uint64(h)))
+		if verifTier() == 1 && verifChoice("three", 2) == 1 {
+			slots = append(slots, mk("4", 0x7f, uint64(h))) // thorough tier: up to three contracts due in this block
+		}
 	}
 	slots = append(slots, mk("3", 0x80, uint64(h)+7))
 	needEsc := map[string]*big.Int{hDenom: big.NewInt(0), hOther: big.NewInt(0)}
@@ -100,11 +103,11 @@ func c13HTLCState() (*vEnv, keeper.Keeper, sdk.Context, []c13Slot, int64) {
 	// invariants H5/H6 with non-negative remainders
 	escrow := map[string]sdkmath.Int{}
 	for _, d := range []string{hDenom, hOther} {
-		escrow[d] = verifIntIn("escrow_"+d, zero, verifPow2(67))
+		escrow[d] = verifIntIn("escrow_"+d, zero, verifAmt(67))
 		verifAssume(escrow[d].BigInt().Cmp(needEsc[d]) >= 0)
 		e.bank.fund(vModuleAddr(types.ModuleName), d, escrow[d])
 	}
-	incoming, outgoing, current := verifIntIn("incoming", zero, verifPow2(67)), verifIntIn("outgoing", zero, verifPow2(67)), verifIntIn("current", zero, verifPow2(68))
+	incoming, outgoing, current := verifIntIn("incoming", zero, verifAmt(67)), verifIntIn("outgoing", zero, verifAmt(67)), verifIntIn("current", zero, verifAmt(68))
 	verifAssume(incoming.BigInt().Cmp(needIn) >= 0 && outgoing.BigInt().Cmp(needOut) >= 0 && outgoing.BigInt().Cmp(current.BigInt()) <= 0)
 	c := func(a sdkmath.Int) sdk.Coin { return sdk.Coin{Denom: hDenom, Amount: a} }
 	elapsed := time.Duration(verifInt64("elapsed"))
@@ -182,7 +185,7 @@ func VerifC13_HTLCBeginBlockMany() {
 	if err := k.SetParams(e.ctx, types.DefaultParams()); err != nil {
 		verifFail("default params rejected")
 	}
-	first := verifIntIn("amtFirst", big.NewInt(1), verifPow2(64))
+	first := verifIntIn("amtFirst", big.NewInt(1), verifAmt(64))
 	sum := big.NewInt(0)
 	ids := make([]tmbytes.HexBytes, n)
 	for i := 0; i < n; i++ {
